@@ -464,6 +464,9 @@ class DatasetProcessor:
         logger.info("Experiment has " + proper_plural_form("BAM file", len(sample.file_list)) + ": " + ", ".join(
             map(lambda x: x[0], sample.file_list)))
         self.args.use_technical_replicas = self.args.read_group == "file_name" and len(sample.file_list) > 1
+        # isoforms detected in the previous experiment must not affect this one
+        GraphBasedModelConstructor.detected_known_isoforms = set()
+        GraphBasedModelConstructor.extended_transcript_ids = set()
 
         self.all_read_groups = set()
         if self.args.resume and os.path.exists(sample.read_group_file + "_lock"):
